@@ -198,9 +198,7 @@ def h4_widths(kind="Type1", timeout=200, part=None, **kw):
         for i in range(n - 1, -1, -1):
             w = z3.If(code.e == first.e + i, symx.zr(ws[i]), w)
         if kind == "Type3":
-            hs = symx.zr(font.hscale)
-            ex.require(SB(z3.And(hs == symx.zr(fm[0]) + symx.zr(fm[2]), symx.zr(font.vscale) == symx.zr(fm[1]) + symx.zr(fm[3]))), "Type 3 scale is not the FontMatrix applied to (1,1)", **info)
-            exp = w * hs
+            exp = w * (symx.zr(fm[0]) + symx.zr(fm[2]))          # the horizontal component of FontMatrix applied to (1, 1); judged on the observable advance only
         else:
             exp = w / 1000
         if symx.poly_equal(got, SV(exp)):
